@@ -133,6 +133,13 @@ def run(chk):
     chk.floor("R-FAS-SIB", 25)
     chk.floor("R-INV-DT", 14)
     chk.floor("R-CPLX-ORDER", 5)
+    from ..tyob import libns_for
+    chk.rule("R-LIBNS", "every NumPy/SciPy name referenced by the anchored Fourier functions (spectrum, inverse helper, Fourier moments / Boore "
+                        "bandwidth, dominant period) exists in the installed library (resolved from the installed stubs/sources, nothing imported)")
+    libns_for(chk, "R-LIBNS", ["eqsig.single.Signal.gen_fa_spectrum", "eqsig.fns.frequency.generate_fa_spectrum", "eqsig.fns.frequency.calc_fa_spectrum",
+                               "eqsig.fns.frequency.fas2values", "eqsig.fns.frequency.fas2signal", "eqsig.fns.frequency.calc_fourier_moment",
+                               "eqsig.fns.frequency.get_bandwidth_boore_2003", "eqsig.im.max_fa_period"])
+    chk.floor("R-LIBNS", 8)
 
 
 def grid_form(chk, fi, c):
